@@ -144,6 +144,26 @@ def run(ck):
                               "layer": kind, "input": c.get("s") or c.get("yaml") or c.get("rule"), "crate": line[:500],
                               "replay_case": {k: v for k, v in c.items() if not k.startswith("_")}})
             direct_failed.add(c["id"])
+    # compiled-size limits of the regex crate (not modelled: Oracles.re_valid is per pattern): every member
+    # of a list compiles on its own, the set the loader builds from them does not (D35, repaired) --
+    # crate only, must be an error or a rule, never a panic
+    big_cases = []
+    for n in (60000, 80000, 100000, 150000):
+        a, b = "?[a-z]{%d}x" % n, "?[a-z]{%d}y" % n
+        for det in ({"A": {"f": [a, b]}, "condition": "A"}, {"A": {"f": ["i" + a, "i" + b]}, "condition": "A"},
+                    {"A": {"all(f)": [a, b]}, "condition": "A"}, {"A": {"f": [a, b, "foo*"]}, "condition": "not A"},
+                    {"A": {"n": {"f": [a, b]}}, "condition": "A"}, {"A": {"f": a}, "condition": "A"}):
+            big_cases.append({"k": "rule", "id": ck.new_id(), "rule": rule_text(det), "docs": [], "sw": [0]})
+    bout = lib.run_harness_only(big_cases, "C04big")
+    for c in big_cases:
+        evals += 1
+        line = bout[c["id"]]
+        ck.count("oversized_regex_set:" + ("panic" if "panic" in line else ("err" if "(load err)" in line else "ok")))
+        if "panic" in line:
+            if len(direct_failed) < 5:
+                ck.violation({"property": "C04", "kind": "direct", "what": "loading panicked on a list of regexes whose set exceeds the regex crate's size limit",
+                              "layer": "rule", "input": c["rule"][:200], "crate": line[:300], "replay_case": c})
+            direct_failed.add(c["id"])
     ck.coverage["evaluations"] = evals
     ck.coverage["distinct_nontrivial"] = len(nontrivial)
     ck.coverage["exhaustive"] = True
